@@ -117,6 +117,8 @@ def run(ctx):
                 st.append({"k": "data", "mn": "DW", "items": [{"t": "e", "e": {"o": "id", "nm": "af%d" % j}}]})
                 st.append({"k": "ins", "mn": "MOV", "ops": [{"t": "r", "w": 16 if bits == 16 else 32, "n": 6}, {"t": "l", "nm": "af%d" % j, "add": 0}]})
             R.add(st)
+    import corpus
+    ncorpus = len(corpus.add(R, tags=("C12", "C03")))      # real programs as written (/verif/corpus)
     R.run()
     # programs that do not parse (a mnemonic outside the grammar) are skipped by bisecting in the C01 check; here they just count as diagnosed
     ver = ctx.validate("Trace_Asm", R.traces(), nproc=12)
@@ -127,7 +129,7 @@ def run(ctx):
     cov = {
         "states": mcst["distinct"], "transitions": mcst["generated"],
         "model_checking": "MC_Asm: all programs of length <= %d over a 15-statement alphabet (labels, JMP/JE/JNZ/CALL to labels, DW/MOV of labels, NOP, RESB 1/126, ALIGNB 4, ORG, BITS 32); invariants Inv_C03 Inv_C04 Inv_C05 Inv_C17 hold" % (4 if quick else 5),
-        "traces_validated_against_impl": len(R.cases), "trace_events": ver["events"],
+        "traces_validated_against_impl": len(R.cases), "corpus_programs": ncorpus, "trace_events": ver["events"],
         "random_programs": nprog, "forward_reference_patterns": npat, "dollar_in_equ_programs": nequ, "sweep_cells": len(cells) * 2,
         "programs_without_diagnostic": clean, "programs_fully_accepted_by_reference": clean - len([i for i in rejected if not is_diagnosed(R.end(i))]),
         "evaluations": len(R.cases), "distinct_nontrivial": clean,
